@@ -754,6 +754,8 @@ func rawBases(c *fw.Ctx) []*base {
 			"/P <</MCID 3>> BDC BT (z) Tj ET EMC BI /Width 3 /Height 1 /BitsPerComponent 8 /ColorSpace /RGB /Length 9 /F [/AHx] /D [0 1] /I true /IM false ID 616263616263616263> EI 0 0 10 10 re f /GS1 gs /Sh1 sh 5 0 0 5 0 0 cm /Fm1 Do")},
 		&base{id: "rawcmap0", kind: "raw-cmap", ext: "bin", data: pdfw.ToUnicodeProgram(map[string]string{"A": "x", "B": "y", "\x01\x02": "z"}, 1, "\n")},
 		&base{id: "rawcmap1", kind: "raw-cmap", ext: "bin", data: []byte("1 begincodespacerange\n<0000> <FFFF>\nendcodespacerange\n2 beginbfrange\n<0001> <0010> <0041>\n<0020> <0022> [<0061> <0062> <0063>]\nendbfrange\n1 beginbfchar\n<0030> <D83DDE00>\nendbfchar\n")},
+		// code space ranges of different widths (ISO 32000-1 9.7.6.2, the 90ms-RKSJ example) with targets in each
+		&base{id: "rawcmap2", kind: "raw-cmap", ext: "bin", data: []byte("/CIDInit /ProcSet findresource begin\n12 dict begin\nbegincmap\n/CMapName /Mixed def\n4 begincodespacerange\n<00> <80>\n<8140> <9FFC>\n<A0> <DF>\n<E040> <FCFC>\nendcodespacerange\n3 beginbfchar\n<41> <0041>\n<8140> <3000>\n<B1> <FF71>\nendbfchar\n2 beginbfrange\n<20> <7E> <0020>\n<E040> <E07E> <6F3E>\nendbfrange\nendcmap\nend\nend\n")},
 		&base{id: "rawstm0", kind: "raw-stream", ext: "bin", data: append([]byte("<< /Filter /FlateDecode /DecodeParms << /Predictor 12 /Columns 4 /Colors 1 >> >>\n"), func() []byte {
 			return pdfw.EncodeStream([]byte("abcdabcdabcdabcd"), []pdfw.FilterStage{{Kind: "Fl", Pred: 12, Cols: 4}}, rand.New(rand.NewSource(1)))
 		}()...)},
